@@ -39,7 +39,7 @@ pub struct Case {
 }
 
 pub const KM: [&str; 6] = ["NumericString", "PrintableString", "VisibleString", "IA5String", "BMPString", "UniversalString"];
-pub const OTHER: [&str; 5] = ["UTF8String", "GeneralString", "TeletexString", "GraphicString", "GeneralizedTime"];
+pub const OTHER: [&str; 4] = ["UTF8String", "GeneralString", "TeletexString", "GraphicString"];
 
 fn q(s: &str) -> String {
     format!("\"{}\"", s.replace('"', "\"\""))
